@@ -66,9 +66,15 @@ def _case(draw):
     nfiles = draw(st.integers(1, 3))
     files = []
     tables = []
+    # one case in six is about very small files (header only, or one data row), whole-file scans, end-of-file
+    # dependent programs and a cache warmed by an earlier process
+    tiny = draw(st.integers(0, 5)) == 0
     for k in range(nfiles):
         # (also header-only files: min_rows=0)
-        t = draw(progs.tables(min_rows=draw(st.sampled_from([0, 1, 1, 1])), max_rows=5))
+        if tiny:
+            t = draw(progs.tables(min_rows=0, max_rows=draw(st.sampled_from([0, 0, 1])), blanks=False))
+        else:
+            t = draw(progs.tables(min_rows=draw(st.sampled_from([0, 1, 1, 1])), max_rows=5))
         if draw(st.integers(0, 2)) != 1:
             hp = progs.hdr_pos(t)
             hdr = t["records"][hp]
@@ -88,10 +94,12 @@ def _case(draw):
     for j in range(njobs):
         k = draw(st.integers(0, nfiles - 1))
         t = tables[k]
-        prog = draw(progs.programs(t, kinds=("b", "b", "assign", "when", "se", "print", "first", "last"), max_comps=3, depth=2))
+        kinds = ("assign", "print", "last", "last") if tiny else ("b", "b", "assign", "when", "se", "print", "first", "last")
+        prog = draw(progs.programs(t, kinds=kinds, max_comps=3, depth=2))
         prog["comps"] = c20.by_index(prog["comps"], t["cols"])
         prog["comps"] = observers(draw) + prog["comps"]
-        jobs.append({"file": k, "prog": prog, "scan": draw(progs.scans(t)), "via": draw(st.sampled_from(["CsvPath", "CsvPaths", "CsvPaths"]))})
+        scan = "*" if tiny else draw(progs.scans(t, from_data=draw(st.sampled_from([True, True, False]))))
+        jobs.append({"file": k, "prog": prog, "scan": scan, "via": draw(st.sampled_from(["CsvPath", "CsvPaths", "CsvPaths"]))})
     rewrite = None
     if draw(st.integers(0, 3)) == 2 and njobs >= 2:
         # a file path reused with different content between two jobs
@@ -110,7 +118,7 @@ def _case(draw):
                 prog = draw(progs.programs(t2, kinds=("b", "assign", "se"), max_comps=2, depth=1))
                 prog["comps"] = observers(draw) + c20.by_index(prog["comps"], t2["cols"])
                 jobs[j] = {"file": k, "prog": prog, "scan": draw(progs.scans(t2)), "via": draw(st.sampled_from(["CsvPath", "CsvPaths", "CsvPaths"]))}
-    return {"files": files, "jobs": jobs, "warm": draw(st.booleans()), "repeat": draw(st.integers(0, njobs - 1)), "rewrite": rewrite,
+    return {"files": files, "jobs": jobs, "warm": True if tiny else draw(st.booleans()), "repeat": draw(st.integers(0, njobs - 1)), "rewrite": rewrite,
             "delimiter": draw(st.sampled_from([",", ",", ";", "|"])),
             "policy": draw(st.sampled_from(POLICIES))}
 
